@@ -60,3 +60,7 @@ def listMax (l : List Rat) : Rat := l.foldl max (l.headD 0)
 def listMean (l : List Rat) : Rat := l.sum / (l.length : Rat)
 
 deriving instance DecidableEq for Except
+
+/-- `np.arange(start, stop, step)` for `step > 0`: `start + i*step` for `i < ⌈(stop-start)/step⌉` -/
+def pyArange (start stop step : Rat) : List Rat :=
+  (List.range ((stop - start) / step).ceil.toNat).map (fun (i : Nat) => start + (i : Rat) * step)
